@@ -432,7 +432,11 @@ func (s *JavaFullListener) EnterCreator(ctx *parser.CreatorContext) {
 	variableName := ctx.GetParent().GetParent().GetChild(0).(antlr.ParseTree).GetText()
 	allIdentifiers := ctx.CreatedName().(*parser.CreatedNameContext).AllIdentifier()
 
-	for _, identifier := range allIdentifiers {
+	for index, identifier := range allIdentifiers {
+		if index != len(allIdentifiers)-1 {
+			// `new a.b.T()`: the created type is the last identifier of the qualified name
+			continue
+		}
 		createdName := identifier.GetText()
 		localVars[variableName] = createdName
 
